@@ -2,6 +2,8 @@ use crate::engine::{Ctx, PropertyReport};
 
 pub mod c01;
 pub mod c02;
+pub mod c03;
+pub mod c04;
 
 pub struct Entry {
     pub id: &'static str,
@@ -11,6 +13,8 @@ pub struct Entry {
 pub const ENTRIES: &[Entry] = &[
     Entry { id: "C01", run: c01::run },
     Entry { id: "C02", run: c02::run },
+    Entry { id: "C03", run: c03::run },
+    Entry { id: "C04", run: c04::run },
 ];
 
 pub fn lookup(id: &str) -> Option<&'static Entry> {
@@ -56,6 +60,11 @@ pub fn dbstats() {
         }
     }
     println!("descriptors {ndesc}");
+    for class in dbview::all_class_names() {
+        for (ser, canon) in dbview::ser_conflicts(&class) {
+            println!("  shared serialized name: {class}.{ser} <- {canon:?}");
+        }
+    }
     println!("kinds {kinds:?}");
     for (k, v) in pairs {
         println!("  {k}: {v}");
